@@ -7,6 +7,7 @@ import (
 	"fmt"
 	"math/rand"
 	"reflect"
+	"sync"
 	"time"
 
 	"github.com/ThreeDotsLabs/watermill/components/cqrs"
@@ -281,6 +282,7 @@ type C16J struct {
 
 func c16Codecs(r *tr.Run, rng *rand.Rand, nm int) int {
 	n := 0
+	protoUsed := map[string]proto.Message{} // by type: a value that already went through an earlier round
 	// forwarder envelope: wrap with the Forwarder's Publisher, unwrap by a running Forwarder
 	capture := scripted.NewPub("capture")
 	fp := forwarder.NewPublisher(capture, forwarder.PublisherConfig{ForwarderTopic: "fwd"})
@@ -327,6 +329,81 @@ func c16Codecs(r *tr.Run, rng *rand.Rand, nm int) int {
 		}
 		r.Emit("rt", "kind", "envelope", "orig", orig, "back", back, "nameok", true)
 		n++
+	}
+	// two Publish calls through ONE forwarder Publisher overlap: the first is held inside the wrapped publisher before it
+	// looks at what it was given, the second runs to completion meanwhile; each envelope must still carry its own message
+	overlap := func(topicA string, mA *message.Message, topicB string, mB *message.Message) {
+		entered, gate := make(chan struct{}, 1), make(chan struct{})
+		var mu sync.Mutex
+		first := true
+		seen := map[string]*message.Message{} // envelope seen by the wrapped publisher, by destination ("A"/"B" = order of arrival)
+		capture.Fn = func(n int, topic string, msgs []*message.Message) error {
+			mu.Lock()
+			mine := "B"
+			if first {
+				mine, first = "A", false
+			}
+			mu.Unlock()
+			if mine == "A" {
+				entered <- struct{}{}
+				<-gate
+			}
+			mu.Lock()
+			if len(msgs) == 1 {
+				seen[mine] = msgs[0]
+			}
+			mu.Unlock()
+			return nil
+		}
+		defer func() { capture.Fn = nil }()
+		done := make(chan struct{})
+		go func() { defer close(done); _ = fp.Publish(topicA, mA) }()
+		select {
+		case <-entered:
+			_ = fp.Publish(topicB, mB)
+		case <-time.After(HangBound):
+			r.Emit("hung", "what", "wrapped publisher not reached")
+		}
+		close(gate)
+		<-done
+		for _, x := range []struct {
+			k     string
+			topic string
+			m     *message.Message
+		}{{"A", topicA, mA}, {"B", topicB, mB}} {
+			orig := c16Project(x.m)
+			orig["topic"] = x.topic
+			mu.Lock()
+			env := seen[x.k]
+			mu.Unlock()
+			back := map[string]any{"error": "no envelope"}
+			if env != nil {
+				env = env.Copy() // (in a broken tree both calls may have been handed the same envelope object)
+				db := len(dst.Calls())
+				if !src.Emit("fwd", env) {
+					r.Emit("hung", "what", "forwarder emit")
+					return
+				}
+				select {
+				case <-env.Acked():
+				case <-env.Nacked():
+				case <-time.After(HangBound):
+				}
+				back = map[string]any{"error": "not forwarded"}
+				if calls := dst.Calls(); len(calls) > db && len(calls[db].Msgs) == 1 {
+					back = c16Project(calls[db].Msgs[0])
+					back["topic"] = calls[db].Topic
+				}
+			}
+			r.Emit("rt", "kind", "envelope-overlap", "orig", orig, "back", back, "nameok", true)
+			n++
+		}
+	}
+	for i := 0; i < 6; i++ {
+		mA := message.NewMessage(fmt.Sprintf("ov-a%d", i), []byte(fmt.Sprintf("payload a%d", i)))
+		mB := message.NewMessage(fmt.Sprintf("ov-b%d", i), []byte(fmt.Sprintf("payload b%d", i)))
+		mA.Metadata.Set("who", "a")
+		overlap(fmt.Sprintf("dest-a%d", i), mA, fmt.Sprintf("dest-b%d", i), mB)
 	}
 	for round := 0; round <= nm; round++ {
 		rep := round == 0
@@ -415,7 +492,15 @@ func c16Codecs(r *tr.Run, rng *rand.Rand, nm int) int {
 						ok := err == nil && mk.Unmarshal(msg, back) == nil && proto.Equal(val, back)
 						r.Emit("rt", "kind", fmt.Sprintf("cqrs-proto/%T", mk), "orig", "v", "back", map[bool]string{true: "v", false: "different"}[ok], "nameok", err == nil && mk.NameFromMessage(msg) == mk.Name(val))
 						n++
+						// ... and into a value that is not fresh: what it held before is gone afterwards (proto.Unmarshal resets its target)
+						tn := fmt.Sprintf("%T", val)
+						if used := protoUsed[tn]; used != nil {
+							ok := err == nil && mk.Unmarshal(msg, used) == nil && proto.Equal(val, used)
+							r.Emit("rt", "kind", fmt.Sprintf("cqrs-proto-used-target/%T", mk), "orig", "v", "back", map[bool]string{true: "v", false: "different"}[ok], "nameok", true)
+							n++
+						}
 					}
+					protoUsed[fmt.Sprintf("%T", val)] = proto.Clone(val)
 				}
 				// a value that was marshaled before and whose nested part has changed since (sizes cached inside the value are stale)
 				for _, mk := range []cqrs.CommandEventMarshaler{cqrs.ProtoMarshaler{}, cqrs.ProtobufMarshaler{}} {
